@@ -34,6 +34,11 @@ def _variants(kind, p, t, rng, n, local=True):
         t2 = U.permute_cells(t2, rng.permutation(nt))
         if local:
             t2 = U.apply_local_orders(kind, t2, rng)
+            if kind == 'quad' and k >= 1:
+                # mixed sense of rotation (as produced by m + m.mirrored()): topology must not depend on it
+                for c in range(t2.shape[1]):
+                    if rng.random() < 0.5:
+                        t2[:, c] = t2[[0, 3, 2, 1], c]
         out.append((p2, t2))
     return out
 
@@ -63,6 +68,21 @@ def battery(m, kind, derived=None):
         ops += [lambda: m.to_meshtri()]
     if kind == 'hex':
         ops += [lambda: m.to_meshtet()]
+    if derived is not None and kind in ('tri', 'quad', 'tet', 'hex'):
+        import skfem as fem
+        c1, c2 = {'tri': (fem.MeshTri1, fem.MeshTri2), 'quad': (fem.MeshQuad1, fem.MeshQuad2),
+                  'tet': (fem.MeshTet1, fem.MeshTet2), 'hex': (fem.MeshHex1, fem.MeshHex2)}[kind]
+
+        def via_second_order():
+            m2 = c2.from_mesh(m)
+            m2.facets, m2.t2f, m2.f2t
+            return c1.from_mesh(m2)
+
+        def via_oriented():
+            mo = m.oriented()
+            mo.facets, mo.t2f, mo.f2t
+            return c1.from_mesh(mo)
+        ops = [via_second_order] + ([via_oriented] if kind in ('tri', 'tet') else []) + ops
     for op in ops:
         try:
             r = op()
@@ -140,6 +160,13 @@ def execute(rec):
     kind = rec['kind']
     for j, v in enumerate(rec['variants']):
         def call():
+            if 'ids' in v:
+                # scatter the points to their (huge) ids; all other columns are points of no cell
+                P = np.zeros((len(v['p']), rec['nv_total']))
+                P[:] = np.arange(rec['nv_total'])[None, :] + 1000.0        # distinct dummy points
+                P[:, v['ids']] = np.array(v['p'], dtype=float)
+                m = U.mesh_class(kind)(P, np.array(v['t'], dtype=np.int64))
+                return conn_event(m, with_coords=False)
             m = U.make(kind, v['p'], v['t'])
             ev1 = conn_event(m, with_coords=True, scale=1)
             if j == 0 and rec.get('battery', True):
@@ -240,6 +267,16 @@ def generate(tier, seed):
     for name, (kind, _) in CONSTRUCTORS.items():
         recs.append({'driver': 'constructor', 'kind': kind, 'family': 'constructors' if kind != 'wedge' else 'UW',
                      'constructor': name, 'variants': [{'p': [], 't': [[0, 0]]}]})
+    # --- few cells, huge and scattered vertex numbers (points that belong to no cell fill the gaps): index arithmetic
+    #     on vertex ids (keys, offsets, dtypes) must not depend on their magnitude
+    big = [5, 32773, 65541, 98309, 100000, 131071, 70001, 46341, 65536]
+    for kind_, (p_, t_) in (('tri', U.tri_lattice(2, 1, (0, 1))), ('quad', U.quad_grid(2, 1)), ('tet', U.tet_cubes(1, 5))):
+        ids = sorted(big[:p_.shape[1]]) if p_.shape[1] <= len(big) else None
+        if ids is None:
+            continue
+        for order in (ids, ids[::-1]):
+            recs.append({'driver': 'conn', 'kind': kind_, 'family': 'big-ids', 'battery': False, 'nv_total': 131072,
+                         'variants': [{'p': p_.astype(int).tolist(), 't': np.asarray(order)[t_].tolist(), 'ids': list(order)}]})
     # --- random tier: integer Delaunay
     nrand = 400 if thorough else 30
     for j in range(nrand):
